@@ -298,7 +298,11 @@ func c05NonEmitting() *core.Scenario {
 
 // c05Sequences: every ordered triple of directive statements in one program (what one directive leaves behind
 // - a shared buffer, a moved location counter, a section switch - must not change what the next one emits).
-func c05Sequences(depth int) *core.Scenario {
+func c05Sequences(depth int) *core.Scenario { return c05SequencesIn(depth, false) }
+
+// c05SequencesIn: coff=true puts the same statements, unframed at the end, into the .text section of a WCOFF object
+// (the last statement of the tuple is the last statement of the section) and judges the section's raw data.
+func c05SequencesIn(depth int, coff bool) *core.Scenario {
 	type seqStmt struct {
 		text func(origin int64) string
 		emit func(addr, origin int64) []byte
@@ -328,8 +332,12 @@ func c05Sequences(depth int) *core.Scenario {
 	for _, a := range alpha {
 		names = append(names, a.text(0))
 	}
+	scName := "directive_sequences"
+	if coff {
+		scName = "directive_sequences_in_coff"
+	}
 	return &core.Scenario{
-		Name: "directive_sequences", Bound: -1,
+		Name: scName, Bound: -1,
 		Rule:   fmt.Sprintf("every ordered %d-tuple of %d directive statements (RESB incl. addr-$, DB/DW/DD incl. $ and a label, ALIGNB, section/BITS directives) in one program x ORG {none, 0x7c00}: the bytes between the sentinels must be the concatenation of what the directive model gives for each statement at its address", depth, len(alpha)),
 		Bounds: map[string]any{"statements": names, "depth": depth, "origins": []string{"none", "0x7c00"}},
 		Build: func(c *core.Chooser) *core.Case {
@@ -338,7 +346,16 @@ func c05Sequences(depth int) *core.Scenario {
 			if origin != 0 {
 				org = fmt.Sprintf("\tORG 0x%x\n", origin)
 			}
+			if coff {
+				if origin != 0 {
+					return nil // objects have no ORG
+				}
+				org = "[FORMAT \"WCOFF\"]\n[BITS 32]\n[FILE \"seq.nas\"]\n[SECTION .text]\n"
+			}
 			framed := c.Bool("framed") // unframed: the statements are the whole program (the first one is the first to emit)
+			if coff && !framed {
+				return nil
+			}
 			addr := origin + 8
 			if !framed {
 				addr = origin
@@ -358,6 +375,28 @@ func c05Sequences(depth int) *core.Scenario {
 				key = append(key, t)
 			}
 			src := org + "back:\n" + sentinelLine(0) + strings.Join(body, "") + sentinelLine(1)
+			if coff {
+				// opening sentinel, the statements, and NOTHING behind them: the tuple ends the section
+				src = org + "back:\n" + sentinelLine(0) + strings.Join(body, "")
+				return &core.Case{
+					Key:  "WCOFF|" + strings.Join(key, " ; ") + " (last in section)",
+					Feat: feat("dir", "seq_coff", "s0", key[0], "s1", key[1]),
+					Srcs: []string{src},
+					Judge: func(rs []*core.Result) core.Verdict {
+						r := *rs[0]
+						if core.HardFailure(&r) {
+							return core.Verdict{Outcome: "failed_run", Fails: []core.Fail{{Facet: "refused_supported", Dev: "hard_failure", Detail: errSummary(&r)}}}
+						}
+						f := parseCOFF(r.Out)
+						if len(f.Problems) > 0 || len(f.Sections) < 1 {
+							return core.Verdict{Outcome: "bad_object", Fails: []core.Fail{{Facet: "bytes", Dev: "object_unreadable", Detail: strings.Join(f.Problems, "; ")}}}
+						}
+						r.Out = append(append([]byte{}, f.sectionData(rs[0].Out, 0)...), sentinelBytes(1)...) // closing sentinel supplied here
+						r.ViaCLI = true                                                                       // no LOC rule for objects
+						return c05JudgeRegion(&r, want, 0, true)
+					},
+				}
+			}
 			if !framed {
 				src = org + "back:\n" + strings.Join(body, "")
 				want = append(append(sentinelBytes(0), want...), sentinelBytes(1)...)
@@ -387,9 +426,9 @@ func init() {
 		Custom: c05CLI,
 		Scenarios: func(tier string) []*core.Scenario {
 			if tier == "thorough" {
-				return []*core.Scenario{c05Lists(3, []int{4, 8, 16, 32, 64}), c05Resb(true), c05Alignb(), c05NonEmitting(), c05Sequences(3), c05SecondOrg()}
+				return []*core.Scenario{c05Lists(3, []int{4, 8, 16, 32, 64}), c05Resb(true), c05Alignb(), c05NonEmitting(), c05Sequences(3), c05SecondOrg(), c05SequencesIn(2, true)}
 			}
-			return []*core.Scenario{c05Lists(2, []int{4, 64}), c05Resb(false), c05Alignb(), c05NonEmitting(), c05Sequences(3), c05SecondOrg()}
+			return []*core.Scenario{c05Lists(2, []int{4, 64}), c05Resb(false), c05Alignb(), c05NonEmitting(), c05Sequences(3), c05SecondOrg(), c05SequencesIn(2, true)}
 		},
 		Assumptions: []string{
 			"sentinel DB lines of eight small hexadecimal literals assemble to exactly those bytes (they are themselves members of the explored DB space)",
